@@ -18,6 +18,23 @@ TRUSTED_BASE = [
 
 
 # ---------------------------------------------------------------- proof obligations
+def coqchk(prop, obligations):
+    """thorough tier: independent re-check of the compiled theorem files (and everything they depend on) with coqchk;
+    returns (ok, report)"""
+    byfam = {}
+    for fam, mod, thm in obligations:
+        if mod not in byfam.setdefault(fam, []):
+            byfam[fam].append(mod)
+    ok, rep = True, []
+    for fam, mods in byfam.items():
+        rc, out = build.sh("timeout 3000 coqchk -silent -o -Q %s '' %s" % (os.path.join(build.COQ, fam), " ".join(mods)), cwd=os.path.join(build.COQ, fam), timeout=3100)
+        tail = out[out.find("CONTEXT SUMMARY"):] if "CONTEXT SUMMARY" in out else out[-1500:]
+        rep.append("%s: rc=%d %s" % (fam, rc, " ".join(tail.split())[:600]))
+        if rc != 0 or "Axioms: <none>" not in " ".join(tail.split()).replace("* Axioms: <none>", "Axioms: <none>"):
+            ok = False
+    return ok, rep
+
+
 def audit(prop, obligations, status):
     """obligations: list of (family, module, theorem).  Compiles a small file that Requires the modules and
     prints the assumptions of every theorem; returns (results, log) with results[(fam,mod,thm)] = True/False."""
@@ -159,8 +176,11 @@ def show(b, n=80):
 
 class Job:
     """A batch of cases with (optionally) a correspondence function and (optionally) an oracle mode."""
-    def __init__(self, name, cases, corr=None, judge_mode=None, nontrivial=None, mutate=None, shrinkable=True):
+    def __init__(self, name, cases, corr=None, judge_mode=None, nontrivial=None, mutate=None, shrinkable=True, corr_is_spec=False):
         self.name, self.cases, self.corr, self.judge_mode = name, cases, corr, judge_mode
+        # True when the model side of the correspondence IS the property's reference object (e.g. the structural reading of
+        # the tree for C10): a difference is then a violation on that very input, not merely a broken tie
+        self.corr_is_spec = corr_is_spec
         self.shrinkable = shrinkable    # False when the cases come from a restricted domain that byte deletion would leave
         self.nontrivial = nontrivial or (lambda c: len(c[0]) > 0)
         self.mutate = mutate or (lambda rng, c: (gen.mutate(rng, c[0]), c[1]))
@@ -203,11 +223,17 @@ class Check:
         res, alog = audit(prop, self.obligations, st)
         n_obl = len(self.obligations)
         broken_obl = [k for k, v in res.items() if not v]
+        chk_report = None
+        if tier == "thorough" and not broken_obl:
+            okc, chk_report = coqchk(prop, self.obligations)
+            if not okc:
+                broken_obl = [("coqchk", "independent re-check failed or reports axioms", "; ".join(chk_report)[:300])]
         model_ok = st.get("driver") == 0
         jobs = self.jobs(seed, tier)
         # 2. correspondence, 3. judge
         diffs = []          # (job, index, impl, model, what)
         violations = []     # (job, case, sig)
+        spec_violations = []
         known_hits = {}
         n_cases = n_judged = n_fail = 0
         for job in jobs:
@@ -215,6 +241,8 @@ class Check:
             if job.corr and model_ok:
                 for d in job.corr(job.cases):
                     diffs.append((job,) + tuple(d))
+                    if job.corr_is_spec:
+                        spec_violations.append((job, job.cases[d[0]], "%s-reference-differs: %s" % (prop, d[3] if len(d) > 3 else "")))
             if job.judge_mode and job.cases:
                 n_judged += len(job.cases)
                 for i, sig in judge(prop, job.cases, job.judge_mode):
@@ -239,6 +267,8 @@ class Check:
             broken.append("correspondence differs: " + ", ".join("%s: %d case(s)" % kv for kv in byjob.items()))
         for what, detail in extra:
             broken.append(what)
+        if not violations and spec_violations:
+            violations = spec_violations[:1]
         if broken and not violations:
             rng = random.Random(seed * 7919 + 13)
             jj = [j for j in jobs if j.judge_mode]
@@ -275,9 +305,9 @@ class Check:
         nviol = 0
         if violations:
             job, (c, p), sig = violations[0]
-            small = shrink(prop, c, p, sig, job.judge_mode) if job.shrinkable else c
+            small = shrink(prop, c, p, sig, job.judge_mode) if (job.shrinkable and "-reference-differs" not in sig) else c
             path = write_replay(prop, tier, seed, {"input_hex": small.hex(), "param": p, "signature": sig, "original_hex": c.hex(),
-                                                   "judge_mode": job.judge_mode, "job": job.name, "broken": broken,
+                                                   "judge_mode": job.judge_mode, "job": job.name, "broken": broken, "corr_job": job.name if "-reference-differs" in sig else None,
                                                    "input_repr": show(small, 200)})
             print("VIOLATION property=%s replay=%s" % (prop, path))
             print("  failing input %s %s: %s" % (show(small), ("[" + p[:60] + "]") if p else "", sig[:300]))
@@ -323,6 +353,8 @@ class Check:
             "input_histogram": gen.histogram([c[0] for c in allcases]) if allcases else {},
             "build": {"cached": st.get("cached"), "gen_changed": st.get("gen_changed"), "coq_missing": {f: v["missing"] for f, v in st.get("coq", {}).items() if v["missing"]}},
         }
+        if chk_report is not None:
+            cov["coqchk"] = chk_report
         cov.update(self.extra_coverage(st))
         write_evidence(prop, tier, seed, self.level, cov, self.assumptions, time.time() - t0, nviol)
         if rc == 0:
@@ -336,6 +368,16 @@ class Check:
             print("replay names a broken obligation/correspondence, no input: %s" % json.dumps(r.get("broken")))
             return 1
         inp = bytes.fromhex(r["input_hex"])
+        if r.get("corr_job"):
+            for j in self.jobs(r.get("seed", 1), "quick"):
+                if j.name == r["corr_job"] and j.corr:
+                    d = j.corr([(inp, r.get("param", ""))])
+                    if d:
+                        print("VIOLATION property=%s replay=%s" % (self.prop, path))
+                        print("  input %s [%s]: implementation and reference reading differ (%s)" % (show(inp), r.get("param", ""), d[0][3] if len(d[0]) > 3 else ""))
+                        return 1
+            print("replay passes: property holds on %s" % show(inp))
+            return 0
         fails = judge(self.prop, [(inp, r.get("param", ""))], r.get("judge_mode"))
         if fails:
             print("VIOLATION property=%s replay=%s" % (self.prop, path))
